@@ -270,6 +270,13 @@ func init() {
 			}
 			return mkWide(smt.BVShl(smt.Resize(a, 130, true), smt.Resize(termOf(args[1], types.Int64), 130, false)))
 		},
+		"wTo64": func(fr *frame, args []value) value { // low 64 bits (callers establish wFits64 first)
+			a := wideOf(args[0])
+			if X.IntMode {
+				return mkSym(types.Int64, a)
+			}
+			return mkSym(types.Int64, smt.Resize(a, 64, true))
+		},
 		"wNeg": func(fr *frame, args []value) value {
 			a := wideOf(args[0])
 			if X.IntMode {
